@@ -8,6 +8,7 @@ import hashlib
 import io
 import json
 import marshal
+import re
 import sys
 import types
 import warnings
@@ -38,7 +39,7 @@ def sort_outervar_nonlocals(tree):
     return n
 
 
-def compile_one(hy, src, idx, full):
+def compile_one(hy, src, idx, full, want_control=False):
     from hy.compiler import hy_compile
     fn = "<c13-%d>" % idx
     mod = types.ModuleType("c13mod_%d" % idx)
@@ -49,7 +50,9 @@ def compile_one(hy, src, idx, full):
             tree = hy_compile(hy.read_many(src, filename=fn), mod, filename=fn, source=src)
     except BaseException as e:  # noqa: deterministic error text is part of the observation
         msg = "%s: %s" % (type(e).__name__, getattr(e, "msg", None) or str(e))
+        msg = re.sub(r"0x[0-9a-fA-F]{6,}", "0x?", msg)  # object addresses are not part of the property
         res["err"] = msg[:400]
+        res["err_full_hash"] = h(msg)
         res["ast"] = h("ERR " + msg)
         res["code"] = res["ctl"] = res["nast"] = res["ncode"] = res["ast"]
         return res
@@ -64,19 +67,23 @@ def compile_one(hy, src, idx, full):
     code = comp(tree)
     res["code"] = h(code)
     res["code_ok"] = not code.startswith(b"compile-error")
-    try:
-        un = ast.unparse(tree)
-        ctl = comp(un)
-    except BaseException as e:  # noqa
-        un, ctl = None, ("unparse-error %s" % type(e).__name__).encode()
-    res["ctl"] = h(ctl)
+    un = None
+    if want_control:  # second pass only: what plain CPython does with the unparsed source under this seed
+        try:
+            un = ast.unparse(tree)
+            ctl = comp(un)
+        except BaseException as e:  # noqa
+            un, ctl = None, ("unparse-error %s" % type(e).__name__).encode()
+        res["ctl"] = h(ctl)
     res["sorted_nonlocals"] = sort_outervar_nonlocals(tree)
-    ndump = ast.dump(tree, include_attributes=True)
-    res["nast"] = h(ndump)
-    res["ncode"] = h(comp(tree))
+    if res["sorted_nonlocals"]:
+        res["nast"] = h(ast.dump(tree, include_attributes=True))
+        res["ncode"] = h(comp(tree))
+    else:
+        res["nast"], res["ncode"] = res["ast"], res["code"]
     if full:
         res["dump"] = dump
-        res["unparse"] = un
+        res["unparse"] = un if un is not None else ast.unparse(tree)
     return res
 
 
@@ -85,7 +92,7 @@ def job_c13(job):
     out = []
     full = job.get("full", False)
     for i, src in job["programs"]:
-        out.append(compile_one(hy, src, i, full))
+        out.append(compile_one(hy, src, i, full, job.get("control", False)))
     return out
 
 
@@ -98,8 +105,19 @@ def run_program(hy, src, idx, names, in_function=False):
     log = []
     mod.__dict__["LOG"] = log
 
+    def show(v):
+        if isinstance(v, (int, str, bool, type(None))):
+            return v
+        if isinstance(v, type):
+            return "<class>"
+        if callable(v):
+            return "<function>"
+        if isinstance(v, (list, tuple)):
+            return [show(a) for a in v]
+        return "<%s>" % type(v).__name__
+
     def lg(k, v):
-        log.append([k, v if isinstance(v, (int, str, bool, type(None))) else repr(v)])
+        log.append([k, show(v)])
         return v
     mod.__dict__["lg"] = lg
     res = {}
@@ -119,8 +137,8 @@ def run_program(hy, src, idx, names, in_function=False):
     res["log"] = log
     g = {}
     for k, v in mod.__dict__.items():
-        if k in names or k.startswith("_hy_"):
-            g[k] = v if isinstance(v, (int, str, bool, type(None))) else "<%s>" % type(v).__name__
+        if k in names:
+            g[k] = show(v)
     res["globals"] = g
     return res
 
